@@ -48,24 +48,68 @@ func ruleC17Sanitise(c *Ctx) {
 			b, ok := v.Type().Underlying().(*types.Basic)
 			return ok && b.Kind() == types.String && nameLike[v.Name()]
 		}) {
-			isSanitise := func(n ast.Node) bool {
-				as, ok := n.(*ast.AssignStmt)
-				if !ok || len(as.Lhs) != 1 || len(as.Rhs) != 1 || objOfIdent(info, as.Lhs[0]) != types.Object(pv) {
-					return false
+			// sanitisedLhs: for an assignment whose right side is one call to the normaliser (or to a helper that only
+			// returns normalised parameters), the source variable of each left-hand side that receives a normalised value
+			sanitisedLhs := func(as *ast.AssignStmt) map[int]types.Object {
+				if len(as.Rhs) != 1 {
+					return nil
 				}
 				call, ok := ast.Unparen(as.Rhs[0]).(*ast.CallExpr)
-				return ok && calleeObj(info, call) == types.Object(san.Obj) && len(call.Args) == 2 && objOfIdent(info, call.Args[1]) == types.Object(pv)
+				if !ok {
+					return nil
+				}
+				fn, _ := calleeObj(info, call).(*types.Func)
+				sum := c.sanitiserSummary(san, fn, 0)
+				if sum == nil || len(sum) != len(as.Lhs) {
+					return nil
+				}
+				out := map[int]types.Object{}
+				for j, pi := range sum {
+					if pi >= 0 && pi < len(call.Args) {
+						if src := objOfIdent(info, call.Args[pi]); src != nil {
+							out[j] = src
+						}
+					}
+				}
+				return out
 			}
+			isSanitise := func(n ast.Node) bool {
+				as, ok := n.(*ast.AssignStmt)
+				if !ok {
+					return false
+				}
+				for j, src := range sanitisedLhs(as) {
+					if src == types.Object(pv) && objOfIdent(info, as.Lhs[j]) == types.Object(pv) {
+						return true
+					}
+				}
+				return false
+			}
+			// clean locals: `indexedName := sanitise(name)`; a query use of one is a discharged obligation of name
+			clean := map[types.Object]bool{}
+			walkOwn(f.Body(), func(n ast.Node) {
+				if as, ok := n.(*ast.AssignStmt); ok {
+					for j, src := range sanitisedLhs(as) {
+						if o := objOfIdent(info, as.Lhs[j]); src == types.Object(pv) && o != nil && o != types.Object(pv) && as.Tok == token.DEFINE {
+							clean[o] = true
+						}
+					}
+				}
+			})
 			// derived locals (prefix := strings.TrimSuffix(name, "/") + "/") carry the taint
 			derived := map[types.Object]bool{pv: true}
 			for changed := true; changed; {
 				changed = false
 				walkOwn(f.Body(), func(n ast.Node) {
 					as, ok := n.(*ast.AssignStmt)
-					if !ok || isSanitise(as) {
+					if !ok {
 						return
 					}
+					sl := sanitisedLhs(as)
 					for i, l := range as.Lhs {
+						if _, isSan := sl[i]; isSan {
+							continue
+						}
 						if i >= len(as.Rhs) && len(as.Rhs) != 1 {
 							continue
 						}
@@ -105,6 +149,19 @@ func ruleC17Sanitise(c *Ctx) {
 						}
 					}
 					if !uses {
+						usesClean := false
+						for _, a := range cs.Call.Args {
+							for d := range clean {
+								if usesObj(info, a, d) {
+									usesClean = true
+								}
+							}
+						}
+						if usesClean {
+							k++
+							total++
+							c.ok(rule, f, fmt.Sprintf("%s query-use#%d", pv.Name(), k), cs.Call.Pos(), true, "the query uses a local that holds getSanitizedPath("+pv.Name()+")")
+						}
 						continue
 					}
 					// only the outermost builder call of an expression is an obligation
@@ -191,6 +248,88 @@ func ruleC17Sanitise(c *Ctx) {
 	if total < half(10) {
 		c.unresolved("only %d query uses of caller-supplied names found (expected >= 10)", total)
 	}
+}
+
+// sanitiserSummary: for the normaliser itself and for helpers that do nothing with their string parameters but return
+// their normalised values, the parameter index each result is the normalisation of (-1: not a normalised parameter).
+func (c *Ctx) sanitiserSummary(san *FuncInfo, fn *types.Func, depth int) []int {
+	if fn == nil || depth > 2 {
+		return nil
+	}
+	if fn == san.Obj {
+		return []int{1}
+	}
+	g := c.byObj[fn]
+	if g == nil || g.Body() == nil || !inRepo(fn) {
+		return nil
+	}
+	sig := fn.Type().(*types.Signature)
+	if sig.Results().Len() == 0 {
+		return nil
+	}
+	info := g.Pkg.TypesInfo
+	paramIdx := func(o types.Object) int {
+		for i := 0; i < sig.Params().Len(); i++ {
+			if types.Object(sig.Params().At(i)) == o {
+				return i
+			}
+		}
+		return -1
+	}
+	// the normalised parameter an expression denotes
+	var normOf func(e ast.Expr, d int) int
+	normOf = func(e ast.Expr, d int) int {
+		e = ast.Unparen(e)
+		if call, ok := e.(*ast.CallExpr); ok {
+			cf, _ := calleeObj(info, call).(*types.Func)
+			sum := c.sanitiserSummary(san, cf, depth+1)
+			if len(sum) == 1 && sum[0] >= 0 && sum[0] < len(call.Args) {
+				return paramIdx(objOfIdent(info, call.Args[sum[0]]))
+			}
+			return -1
+		}
+		if id, ok := e.(*ast.Ident); ok && d < 2 {
+			if o := info.Uses[id]; o != nil && paramIdx(o) < 0 {
+				if _, dcall, idx := defOf(g, o); dcall != nil && idx == 0 {
+					return normOf(dcall, d+1)
+				}
+			}
+		}
+		return -1
+	}
+	var out []int
+	rets := returnsIn(g)
+	if len(rets) == 0 {
+		return nil
+	}
+	for _, ret := range rets {
+		if len(ret.Results) != sig.Results().Len() {
+			return nil
+		}
+		cur := make([]int, len(ret.Results))
+		for j, r := range ret.Results {
+			cur[j] = normOf(r, 0)
+		}
+		if out == nil {
+			out = cur
+			continue
+		}
+		for j := range out {
+			if out[j] != cur[j] {
+				out[j] = -1
+			}
+		}
+	}
+	any := false
+	for _, v := range out {
+		if v >= 0 {
+			any = true
+		}
+	}
+	if !any {
+		return nil
+	}
+	return out
 }
 
 func stringLitsComparedWith(info *types.Info, body ast.Node, pred func(e ast.Expr) bool) map[string]bool {
